@@ -108,6 +108,14 @@ pub fn c10(ctx: &Ctx) -> PropResult {
             cases.push(run_case(format!("{}{}", exemplar_prelude(), f), "statement-form"));
         }
     }
+    // every binary / logical operator on every pair of exemplar operands (arithmetic fast paths must not crash either)
+    for op in ["+", "-", "*", "/", "MOD", "==", "!=", "<", "<=", ">", ">=", "AND", "OR"] {
+        for (_, a) in EXEMPLARS {
+            for (_, b) in EXEMPLARS {
+                cases.push(run_case(format!("{pre}x <- {a}\ny <- {b}\nDISPLAY(\"before\")\nr <- x {op} y\nDISPLAY(r)\n"), "operator-table"));
+            }
+        }
+    }
     // maps built from every pair of exemplar keys, then every MAP procedure on them
     for (_, k1) in EXEMPLARS {
         for (_, k2) in EXEMPLARS {
@@ -132,6 +140,15 @@ pub fn c10(ctx: &Ctx) -> PropResult {
                 let args: Vec<String> = (0..*arity).map(|i| if i == pos { format!("\"{o}\"") } else { plausible_arg(module, name, i).to_string() }).collect();
                 cases.push(run_case(format!("{pre}lst <- [1, 2]\nmp <- MAP()\nDISPLAY(\"call\")\nr <- {name}({})\nDISPLAY(r)\n", args.join(", ")), &format!("{module}.{name}")));
             }
+        }
+    }
+    // selective imports with lists of every shape: empty, repeated names, unknown among known, the whole module twice
+    for m in ["MATH", "TIME", "STYLE", "IO"] {
+        let names: Vec<&String> = reg.iter().filter(|(mm, _, _)| mm == m).map(|(_, n, _)| n).collect();
+        let a = names[0];
+        let b = names[names.len() - 1];
+        for list in [format!("[]"), format!("[\"{a}\"]"), format!("[\"{a}\", \"{a}\"]"), format!("[\"{a}\", \"{b}\", \"{a}\"]"), format!("[\"{a}\", \"NOPE\", \"{a}\"]"), format!("[\"NOPE\", \"NOPE\"]"), format!("[\"{b}\", \"{a}\"]")] {
+            cases.push(run_case(format!("DISPLAY(\"before\")\nIMPORT {list} FROM MOD \"{m}\"\nDISPLAY(\"after\")\nIMPORT {list} FROM MOD \"{m}\"\nIMPORT MOD \"{m}\"\nIMPORT \"{a}\" FROM MOD \"{m}\"\nDISPLAY(\"end\")\n"), "import-lists"));
         }
     }
     // STYLE with every name of the live style table (scanned from style.rs), in three casings, and near-misses
@@ -218,6 +235,8 @@ pub fn for_each_mutation_family() -> Vec<String> {
                     ));
                 }
             }
+            // the same text traversed twice (as a string: its characters), the loop variable changed in the first pass
+            out.push(format!("s <- \"{}\"\nFOR EACH ch IN s {{\nIF (ch == \"b\") {{\nch <- \"B\"\n}}\n}}\nt <- \"\"\nFOR EACH ch IN \"{}\" {{\nt <- t + ch\n}}\nDISPLAY(t)\nFOR EACH ch IN s {{\nDISPLAY(ch)\n}}\n", "abcde".chars().take(len).collect::<String>(), "abcde".chars().take(len).collect::<String>()));
             // the same inside a procedure that returns from within the loop
             out.push(format!(
                 "PROCEDURE f(l) {{\nn <- 0\nFOR EACH x IN l {{\nn <- n + 1\nIF (n == {k}) {{\nREMOVE(l, 1)\nRETURN x\n}}\n}}\nRETURN n\n}}\nq <- [{}]\nDISPLAY(f(q))\nDISPLAY(q)\n",
@@ -356,7 +375,9 @@ pub fn c15(ctx: &Ctx) -> PropResult {
     let mut cases = vec![];
     let mut rng = mk_rng(ctx.seed, 15);
     let pre = format!("{}INF <- {}\nNAN <- INF - INF\n", imports(&["MATH", "STRING"]), inf_literal());
-    let specials = ["0", "-0", "1", "-1", "0.5", "-0.5", "2", "10", "0.1", "1.5", "2.5", "-2.5", "3.7", "-3.7", "100", "1000000", "9007199254740993", "INF", "-INF", "NAN", "0.999999", "1.000001", "710", "-710", "0.0000001", "123456.789"];
+    let specials = ["0", "-0", "1", "-1", "0.5", "-0.5", "2", "10", "0.1", "1.5", "2.5", "-2.5", "3.7", "-3.7", "100", "1000000", "9007199254740993", "INF", "-INF", "NAN", "0.999999", "1.000001", "710", "-710", "0.0000001", "123456.789",
+        // the constants of the module and their simple multiples (exact zeros of the mathematical functions are not zeros of the doubles)
+        "PI()", "TAU()", "PI() / 2", "0 - PI()", "4 * PI()", "PI() / 4", "3 * PI() / 2", "E()", "1 / E()", "PI() / 6", "100 * PI()"];
     let exact = ["ROUND", "FLOOR", "CEIL", "INT", "CLAMP", "PI", "E", "TAU"];
     for (module, name, arity) in &reg {
         if module != "MATH" {
@@ -405,6 +426,10 @@ pub fn c15(ctx: &Ctx) -> PropResult {
         // a literal's value does not depend on what precedes it in the source (multi-byte text shifts byte offsets)
         let (pre, post) = if rng.chance(1, 3) { (format!("{pre}// ünï 語 😀\nlabel <- \"café\"\n"), format!("DISPLAY(\"é\" + {lit})\n")) } else { (pre.clone(), String::new()) };
         cases.push(run_case(format!("{pre}x <- {lit}\nDISPLAY(x)\nt <- \"\" + x\nDISPLAY(TO_NUMBER(t) == x)\nDISPLAY(TO_NUMBER(t) - x)\nDISPLAY(x / 3)\nDISPLAY(x * 1.1)\nDISPLAY(-x)\n{post}"), "number-text"));
+    }
+    // the displayed text of every number reads back, the non-finite ones and the signed zero included
+    for x in ["INF", "-INF", "NAN", "-0", "0", "0 - NAN", "INF - 1", "-INF * 2", "1 / 3", "HUGEV", "-HUGEV"] {
+        cases.push(run_case(format!("{pre}HUGEV <- 1{}\nx <- {x}\nt <- \"\" + x\nDISPLAY(t)\nr <- TO_NUMBER(t)\nDISPLAY(r)\nDISPLAY(r == NULL)\nDISPLAY(\"\" + r == t)\nDISPLAY(TO_NUMBER(\"\" + [x][1]))\n", "0".repeat(308)), "number-text-special"));
     }
     // RANDOM: range contract on the implementation; the model draws from its own choice list
     for a in -3i64..=3 {
